@@ -155,7 +155,10 @@ def run(eng: Engine, ck: Check):
             # the transfer comes out of a loop over the result of a selection function which excludes live handles
             for a in ancestors(st):
                 if isinstance(a, (ast.For,)) and isinstance(a.target, ast.Name) and a.target.id == owner:
-                    srcs = names_in(a.iter)
+                    it_ = expand_aliases(f, a.iter)
+                    while isinstance(it_, ast.Subscript):      # a slice of the selection is still the selection
+                        it_ = expand_aliases(f, it_.value)
+                    srcs = names_in(it_)
                     sa = {}
                     for n in walk_local(f.node):
                         if isinstance(n, ast.Assign) and isinstance(n.value, ast.Call):
@@ -175,6 +178,9 @@ def run(eng: Engine, ck: Check):
               'no dominating `slot is None` guard (without a suspension in between) and the selection that feeds the loop '
               'does not exclude transfers with a live handle', construct=f'{f.qualname}: {owner}.{slot} = create_task')
 
+    from . import defs
+    defs.transfer_get_tasks(eng, ck, 'R-C06-CANCEL-ALL', slots)
+    defs.transfer_state_sets(eng, ck, 'R-C06-CANCEL-ALL', which=('is_processing',))
     # ---- R-C06-SLOT-CLEAR: done-callbacks clear a slot only if it still holds the finished task
     cleared = 0
     for slot in slots:
@@ -291,10 +297,18 @@ def run(eng: Engine, ck: Check):
     ck.ob('R-C06-CANCEL-ALL', ctt or base, (ctt or base).node,
           '_cancel_transfer_tasks awaits (gathers) the tasks returned by transfer.cancel_tasks()', ok,
           'the cancelled tasks are not awaited', construct='_cancel_transfer_tasks awaits')
-    ok = stt is not None and any(isinstance(parent(c), ast.Await) and not eng.guards_at(stt, c)
-                                 for c in calls_on(stt.node, '_cancel_transfer_tasks'))
-    ck.ob('R-C06-CANCEL-ALL', stt or base, (stt or base).node, '_stop_transfer awaits _cancel_transfer_tasks unconditionally', ok,
-          'missing', construct='_stop_transfer cancels')
+    # helpers of the state classes that cancel-and-await on every path (today: _stop_transfer); a call of one of them counts as the cancellation
+    cancellers = {'_cancel_transfer_tasks'}
+    for _ in range(3):
+        for hn, hm in base.methods.items():
+            if hn in cancellers or hn in ('abort', 'pause'):
+                continue
+            if any(isinstance(parent(c), ast.Await) and not eng.guards_at(hm, c) and not any(isinstance(a_, (ast.For, ast.While, ast.Try)) for a_ in ancestors(c))
+                   for c in calls_in(hm.node) if call_name(c) in cancellers and unparse(c.func.value) == 'self'):
+                cancellers.add(hn)
+    if stt is not None:
+        ck.ob('R-C06-CANCEL-ALL', stt, stt.node, '_stop_transfer awaits _cancel_transfer_tasks unconditionally', '_stop_transfer' in cancellers,
+              'missing', construct='_stop_transfer cancels')
     states = state_classes(eng)
     by_class = {ci.name: v for v, ci in states.items()}
     n_ops = 0
@@ -308,7 +322,7 @@ def run(eng: Engine, ck: Check):
             n_ops += 1
             ck.visited(m)
             c = eng.cfg(m)
-            canc = [n for call in calls_in(m.node) if call_name(call) in ('_cancel_transfer_tasks', '_stop_transfer')
+            canc = [n for call in calls_in(m.node) if call_name(call) in cancellers
                     and isinstance(parent(call), ast.Await) for n in c.nodes_for(call)]
             trs = [n for call, _ in transitions_in(m, by_class) for n in c.nodes_for(call)]
             p = c.find_path([c.entry], lambda n: n in trs, avoid=lambda n: n in canc) if trs else None
@@ -333,7 +347,7 @@ def run(eng: Engine, ck: Check):
             if m is None:
                 continue
             c = eng.cfg(m)
-            canc = [n for call in calls_in(m.node) if call_name(call) in ('_cancel_transfer_tasks', '_stop_transfer')
+            canc = [n for call in calls_in(m.node) if call_name(call) in cancellers
                     and isinstance(parent(call), ast.Await) for n in c.nodes_for(call)]
             trs = [n for call, _ in transitions_in(m, by_class) for n in c.nodes_for(call)]
             susp = None
